@@ -148,22 +148,22 @@ def run(ctx):
     # ---- R3 coefficient freshness and count ---------------------------------------------------------------
     poly_rules(ctx, "C02.R3")
 
-    # ---- R4 / R5 -------------------------------------------------------------------------------------------
-    c01.recover_guards(ctx, "C02.R4")
-    ctx.floor("C02.R4", 6)
+    # ---- R5 (R4, the distinct-count guard of Sharks::recover, is decided under C01/C06: with the MAC gate below it
+    #      is not a necessary condition of C02) ---------------------------------------------------------------
     for r in ("adss::recover", "sta_rs::share_recover"):
         e2, ret2, _, _ = ctx.root(r)
-        g = c05.mac_gate(e2, ret2, 0)
-        ctx.add("C02.R5", r + "#mac-gate", bool(g), "Ok of %s is not gated by MAC verification" % r, ctx.fn(r).loc)
+        g = c05.weak_mac_gate(e2, ret2, 0, fidx(ctx, "adss::Share", "J"))
+        ctx.add("C02.R5", r + "#mac-gate", bool(g), "Ok of %s is not gated by a check of the share's MAC against the rebuilt transcript" % r, ctx.fn(r).loc)
     # threshold bound into the MAC on the verifying side
     ev, retv, _, _ = ctx.root("adss::Commune::verify")
-    g = [t for k, t in (c05.mac_gate(ev, retv, 0) or []) if k == "recv_mac"]
     iA = fidx(ctx, "adss::Commune", "A")
+    gate = c05.weak_mac_gate(ev, retv, 0, fidx(ctx, "adss::Share", "J"))
     okb = False
-    if g:
-        tr = Q.flat_ops(Q.trace_of(g[0].args[1]))
-        okb = any(k == "ad" and d.op == "bytes_of" and d.args[1] == 4 and Q.params(Q.leaves(d)) == {"self.%d.0" % iA}
-                  for k, d, _ in tr)
+    for t in gate or []:
+        for o in Q.find_all(t, lambda z: z.op == "owf" or z.op == "sop"):
+            tr = Q.flat_ops(Q.trace_of(o.args[1] if o.op == "owf" else o))
+            if any(k == "ad" and d.op == "bytes_of" and d.args[1] == 4 and Q.params(Q.leaves(d)) == {"self.%d.0" % iA} for k, d, _ in tr):
+                okb = True
     ctx.add("C02.R5", "adss::Commune::verify#threshold-bound", okb,
             "the verified transcript must absorb the full 4-byte threshold (a forged smaller threshold must change the MAC input)",
             ctx.fn("adss::Commune::verify").loc)
